@@ -75,6 +75,20 @@ def make_trees(r, tier, names, fgs, drv=None):
         trees.append(("resized", T.Node("Glc", [(an, 1, r.choice([2, 3, 4, 6]), T.Node(nm))])))
         trees.append(("resized", T.Node(nm, [(an, 1, r.choice([2, 3, 4]), T.Node("Gal"))])))
         trees.append(("resized", T.Node("Kdo", [("a", 1, 5, T.Node(nm, [(r.choice("ab"), 1, 3, T.Node(r.choice(pick[:8])))]))])))
+    # residues whose modifications are all written in front of the sugar code (deoxy, anhydro, D-/L- heads, epimers),
+    # as linked child under both anomers and as inner residue
+    prefixed = [f"{d}d{b}" for b in ("Glc", "Gal", "Man", "Tal", "Alt", "Gul", "All", "Ido") for d in (2, 3, 4, 6)] \
+        + [f"{pre}{b}" for b in ("Glc", "Gal", "Man", "Fuc", "Rha", "Ara", "Xyl", "Ido") for pre in ("D-", "L-")] \
+        + ["3,6-Anhydro-Gal", "3,6-Anhydro-Glc", "3,6-Anhydro-L-Gal", "4eLeg", "8eLeg", "2,6dGlc", "3,6dMan", "L-6dGal", "D-6dAlt", "2dRib", "6dGlcN", "6dTalNAc"]
+    pickp = prefixed if tier == "thorough" else r.sample(prefixed, 16)
+    for nm in pickp:
+        c1 = 2 if "Leg" in nm else 1
+        free = [p_ for p_ in (2, 3, 4) if str(p_) not in nm.split("-")[0] and f"{p_}d" not in nm and f",{p_}d" not in nm]
+        T.RES.setdefault(nm, (c1, tuple(free) or (4,), (), "prefixed"))
+        for an in "ab":
+            trees.append(("prefixed", T.Node("Glc", [(an, c1, r.choice([3, 4, 6]), T.Node(nm))])))
+        if free:
+            trees.append(("prefixed", T.Node("Gal", [("b", c1, 3, T.Node(nm, [(r.choice("ab"), 1, free[0], T.Node(r.choice(["Man", "Fuc", "Xyl"])))]))])))
     # four substituents on a root and on an inner residue
     four = T.Node("Man", [("a", 1, 2, T.Node("Gal")), ("a", 1, 3, T.Node("Fuc")), ("b", 1, 4, T.Node("Xyl")), ("b", 1, 6, T.Node("GlcNAc"))])
     trees.append(("four", four))
@@ -145,7 +159,7 @@ def run(tier):
                     {"no_failing_input": True, "what_no_longer_checks": broken, "theorems": names_thm})
     report.assumptions = ["the per-residue reference is the library's own conversion of the residue alone (as the property states)",
                           "formula and ring count are the Coq functions Chem.formula / Chem.n_rings of the Coq reading (Smiles.sem) of the returned strings; validated against RDKit per instance by the O1 check of C02"]
-    extra = {"rule": "trees of 2-6 (quick) / 2-12 (thorough) residues over (a) the core vocabulary with free positions, (b) the complete library x ring form x D/L x random modification tokens, (c) alditol / anhydro roots, (d) N-glycosidic parents, (e) size-extended residues (LDManHep, 6dAltHep, AraHexf, ...7P) as child, parent and inner residue, (f) four substituents; evaluated only when glycan and every residue convert; distinct = distinct glycan strings",
+    extra = {"rule": "trees of 2-6 (quick) / 2-12 (thorough) residues over (a) the core vocabulary with free positions, (b) the complete library x ring form x D/L x random modification tokens, (c) alditol / anhydro roots, (d) N-glycosidic parents, (e) size-extended residues (LDManHep, 6dAltHep, AraHexf, ...7P) as child, parent and inner residue, (f) four substituents, (g) residues with prefix-only modifications (deoxy, anhydro, D-/L-, epimers) as child under a and b and as inner residue; evaluated only when glycan and every residue convert; distinct = distinct glycan strings",
              "skipped_no_molecule": skipped, "by_kind": kinds,
              "print_assumptions": res.assumptions.get(f"Props/{PROP}.v", "").strip().splitlines()[-4:]}
     return report.finish("proof", ob, dis, names_thm, trusted=C.TRUSTED, extra=extra)
